@@ -1,3 +1,5 @@
+//go:build g_poseidon
+
 package props
 
 import (
@@ -55,11 +57,6 @@ func genC05(t *rapid.T) c05Case {
 		c.DeltaAt = rapid.IntRange(0, 6).Draw(t, "at")
 	}
 	return c
-}
-
-func addMod(v *big.Int, d int64) *big.Int {
-	x := new(big.Int).Add(v, big.NewInt(d))
-	return x.Mod(x, ref.R)
 }
 
 func c05Literal(c c05Case) bool {
